@@ -41,6 +41,9 @@ func main() {
 		if handled, code := checks.ReplayKV(os.Args[3]); handled {
 			os.Exit(code)
 		}
+		if handled, code := checks.ReplayScenario(os.Args[3]); handled {
+			os.Exit(code)
+		}
 		c, err := checks.Build(id, "quick", seed)
 		if err != nil {
 			fmt.Println("INCONCLUSIVE:", err)
